@@ -85,7 +85,7 @@ Mutations == {"truncate-at-field", "truncate-inside-field", "unknown-type", "len
               "length-65535", "length-2^31", "length-2^32-1", "count-inconsistent", "path-too-long", "path-traversal",
               "index-ge-total", "chunk-length-0", "chunk-length-gt-chunksize", "duplicate-begin", "end-for-unknown-file",
               "request-for-unknown-file", "wrong-direction-record", "end-with-files-missing", "bad-magic", "crc-mismatch",
-              "garbage-json", "chunksize-0", "chunksize-0-empty-file"}
+              "garbage-json", "chunksize-0", "chunksize-0-empty-file", "chunksize-huge", "filedone-twice", "begin-after-done", "count-consistent-huge"}
 \* which mutations make sense where
 Applies(stage, t, m) ==
   CASE m \in {"truncate-at-field", "truncate-inside-field"} -> TRUE
@@ -93,7 +93,9 @@ Applies(stage, t, m) ==
     [] m \in {"length-0", "length-1", "length-plus1", "length-65535"} -> t \in {"FileBegin", "FileDone", "FileResumeInfo", "ResumeRequest"}
     [] m \in {"length-2^31", "length-2^32-1"} -> t \in {"Header", "FileResumeInfo", "CreditBatch"}
     [] m = "count-inconsistent" -> t \in {"DataStreams", "FileResumeInfo"}
-    [] m \in {"path-too-long", "path-traversal", "duplicate-begin", "chunksize-0", "chunksize-0-empty-file"} -> t = "FileBegin"
+    [] m \in {"path-too-long", "path-traversal", "duplicate-begin", "chunksize-0", "chunksize-0-empty-file", "chunksize-huge", "begin-after-done"} -> t = "FileBegin"
+    [] m = "filedone-twice" -> t = "FileDone"
+    [] m = "count-consistent-huge" -> t = "FileResumeInfo"
     [] m \in {"index-ge-total", "chunk-length-0", "chunk-length-gt-chunksize", "crc-mismatch"} -> t = "ChunkFrame"
     [] m = "end-for-unknown-file" -> t = "FileEnd"
     [] m = "request-for-unknown-file" -> t = "ResumeRequest"
@@ -107,7 +109,7 @@ AllTypesC15 == Types \cup {"Header", "ChunkFrame", "CreditBatch"}
 MustReject(m) == m \in {"truncate-at-field", "truncate-inside-field", "unknown-type", "path-too-long", "path-traversal", "bad-magic",
                         "garbage-json", "index-ge-total", "chunk-length-0", "chunk-length-gt-chunksize", "crc-mismatch",
                         "duplicate-begin", "end-for-unknown-file", "request-for-unknown-file", "wrong-direction-record",
-                        "length-2^31", "length-2^32-1", "length-plus1", "chunksize-0", "chunksize-0-empty-file"}
+                        "length-2^31", "length-2^32-1", "length-plus1", "chunksize-0", "chunksize-0-empty-file", "filedone-twice", "begin-after-done", "count-consistent-huge"}
 
 Init ==
   /\ phase = "new"
